@@ -24,6 +24,7 @@ RULE = (
     "independently solved (SVD) weighted damped least-squares problem in unit-variance column scaling. Metamorphic: weights x c for c in "
     "{1e-3, 7, 1e4} leave undamped fits unchanged; a weight of 1e-12 equals removal of the datum (undamped, over-determined). "
     "Non-trivial: compared fits (well conditioned)."
+    " Added axes: four parameter routes rotating over the cases, weight kinds incl. 1e-12 and 1e-18 / 1e-30 of the largest, weight scaling by 1e-3 ... 1e12, metre-scale point sets at UTM-like offsets, 200-km clouds for Trend degrees 0..4, repeated stations, a third of the even-sized fits as 2 x n/2 arrays."
 )
 ASSUMPTIONS = ["undamped fits: tolerance 256 cond eps ||p_scaled|| ||J_query_scaled||; damped fits are solved by scikit-learn through the normal "
                "equations, so cond is squared there; combinations whose bound exceeds 1e-3 relative are counted as not compared",
